@@ -496,3 +496,76 @@ func VH_C15_GrpcWriteRetry() {
 		vAssert(got[j] == reported[j], "the reader's stream differs from the concatenation of the reported writes")
 	}
 }
+
+// VH_C15_TcpWriteRetry: the same across a transport timeout for the TCP-style
+// connection, which resumes a half-sent record with Flush(). Write(A)
+// succeeds; during Write(B) one transport write accepts only a symbolic part
+// and times out: Write(B) = (nB, err). The caller retries with the remainder
+// B[nB:], as is usual for an io.Writer; if that is refused because a record is
+// pending it calls Flush() (whose count covers bytes of the pending record)
+// and writes what is still left. The reader's stream is always a prefix of
+// what the calls reported - nothing unreported, nothing twice.
+func VH_C15_TcpWriteRetry() {
+	ini, rsp := vMachines()
+	maxl := vParam("maxlen", 65535)
+	la, lb := vInt("len"), vInt("len")
+	vAssume(la >= 1 && la <= maxl && lb >= 1 && lb <= maxl)
+	A, B := vStream("w", la), vStream("w", lb)
+	wire := &vFlakyConn{failCall: -1}
+	wire.out = make([]byte, 0, 3*(maxl+40))
+	c := &NoiseConn{conn: wire, noise: ini}
+	nA, errA := c.Write(A)
+	vAssert(errA == nil && nA == la, "first write failed on a healthy transport")
+	wire.failCall = wire.calls + vIntRange("fail_call", 0, 1)
+	nB, errB := c.Write(B)
+	wire.failCall = -1
+	vAssert(nB >= 0 && nB <= lb, "Write reported a count outside [0,len]")
+	vAssert(errB != nil || nB == lb, "short write without an error")
+	if nB < 0 || nB > lb {
+		return
+	}
+	reported := make([]byte, 0, 3*maxl)
+	reported = append(reported, A[:nA]...)
+	reported = append(reported, B[:nB]...)
+	rest := B[nB:]
+	if errB != nil {
+		n2, err2 := c.Write(rest)
+		vAssert(n2 >= 0 && n2 <= len(rest), "Write reported a count outside [0,len]")
+		if n2 < 0 || n2 > len(rest) {
+			return
+		}
+		reported = append(reported, rest[:n2]...)
+		rest = rest[n2:]
+		if err2 == ErrMessageNotFlushed {
+			vReach("tcp-retry-refused")
+			f, ferr := c.Flush()
+			vAssert(ferr == nil && f >= 0 && f <= len(rest), "Flush failed on a healthy transport or reported more than was pending")
+			if ferr != nil || f < 0 || f > len(rest) {
+				return
+			}
+			reported = append(reported, rest[:f]...)
+			rest = rest[f:]
+			n3, err3 := c.Write(rest)
+			vAssert(err3 == nil && n3 == len(rest), "Write failed after the pending record was flushed")
+			if err3 != nil || n3 != len(rest) {
+				return
+			}
+			reported = append(reported, rest...)
+		}
+	}
+	vReach("tcp-write-retry")
+	rd := &vPipeConn{buf: wire.out}
+	got := make([]byte, 0, 3*maxl)
+	for i := 0; i < 4; i++ {
+		m, err := rsp.ReadMessage(rd)
+		if err != nil {
+			break
+		}
+		got = append(got, m...)
+	}
+	vAssert(len(got) <= len(reported), "the reader obtained more bytes than the writer was told it had written (bytes delivered twice, or bytes of a failed write delivered later)")
+	j := vInt("j")
+	if j >= 0 && j < len(got) && j < len(reported) {
+		vAssert(got[j] == reported[j], "the reader's stream differs from the concatenation of the reported writes")
+	}
+}
